@@ -186,6 +186,20 @@ Definition framed_enc (ls : lenstyle) (big : bool) (tag : option N) (payload : b
   let* l := len_ser ls (blen payload) in
   Ok ((match tag with None => [] | Some t => tag_enc big t end) ++ l ++ payload).
 
+(* the serialize_tagged of a primitive.  Text (String has its own impl since the fix of F9) puts the padding of a padding
+   length (Length::PADS: Fixed<N>) BEHIND the payload, where the decoder trims it; everything else as above *)
+Definition framed_enc_p (ls : lenstyle) (p : prim) (tag : option N) (payload : bytes) : res bytes :=
+  match ls, p with
+  | LFixed n, PString =>
+      if blen payload <=? n
+      then Ok ((match tag with None => [] | Some t => tag_enc false t end) ++ payload ++ zeros (n - blen payload))
+      else Panic                                                       (* vec![0; N - len] *)
+  | _, _ => framed_enc ls false tag payload
+  end.
+(* where the padding of a Fixed<k> field goes *)
+Definition pad_payload (p : prim) (k : N) (pl : bytes) : bytes :=
+  match p with PString => pl ++ zeros (k - blen pl) | _ => zeros (k - blen pl) ++ pl end.
+
 (* ---------- chrono::NaiveDateTime ---------- *)
 
 Definition leap (y : Z) : bool :=
